@@ -41,6 +41,9 @@ def get_prop(pid):
     if pid in ("C04", "C05"):
         import p_spaces
         return p_spaces.SpacesProp(pid)
+    if pid == "C11":
+        import p_attack
+        return p_attack.AttackProp("C11")
     raise SystemExit(f"unknown property {pid}")
 
 
